@@ -180,7 +180,7 @@ def many_msg_cases(rng, tag, thorough):
     (jumbo frame sizes), followed by a packet that does not fit what is left of that frame - one that fits an empty frame (goes whole
     into the next frame) or one that does not (segmented, starting in a frame of its own); and batches of that many one-frame packets"""
     cases = []
-    counts = [255, 256, 257] + ([258, 511, 512, 513, 1024, 65535, 65536, 65537] if thorough else [])
+    counts = [255, 256, 257] + ([258, 511, 512, 513, 1024, 4096] if thorough else [])
     k = 0
     for n in counts:
         for variant in range(3 if n < 2000 else 1):
